@@ -26,6 +26,8 @@ pub fn nth_string(len: usize, mut idx: usize) -> String {
     s
 }
 
+/// long runs of multi-byte text (labels that are clipped, truncated or previewed at a byte count land inside a character)
+pub const LONG_TEXTS: &[&str] = &["Длятестапонадобятсяследующиепродукты: мука, вода, соль и немного терпения", "-Длятестапонадобятсяследующиепродукты и ещё кое-что", "crème fraîche épaisse à 30 % ou crème double, bien froide, fouettée", "日本料理の基本は出汁にあります。昆布と鰹節を使って丁寧に取りましょう。", "xxxxxxxcrème fraîche épaisse à 30 % | crème double"];
 const WORDS: &[&str] = &["flour", "salt", "olive", "oil", "Crème", "ñame", "pan", "egg", "water", "mix", "the", "and", "Bake", "until", "golden", "sea", "1st", "2", "x", "😀", "añejo", "pot", "de", "é"];
 const UNITS: &[&str] = &["g", "kg", "ml", "l", "cup", "cups", "tsp", "tbsp", "min", "minutes", "h", "°C", "C", "F", "pinch", "clove", "oz", "lb", "s"];
 const NUMS: &[&str] = &["1", "2", "200", "0.5", "1.5", ".5", "1/2", "1 1/2", "3 / 4", "2-3", "1.5 - 2", "01", "1/0", "0", "10", "4294967296", "1 / 2", "1e3", "1.", "1.2.3", "1/0-2", "1-1/0", "4-2"];
@@ -113,6 +115,7 @@ pub fn step(rng: &mut Rng) -> String {
     let mut s = String::new();
     for i in 0..n {
         if i > 0 { s.push_str(rng.pick_str(&[" ", " ", " ", "\n", ", ", ". ", "  "])); }
+        if rng.chance(1, 40) { s.push_str(rng.pick_str(LONG_TEXTS)); continue; }
         match rng.below(10) {
             0..=3 => s.push_str(&component(rng)),
             4 => s.push_str(rng.pick_str(COMMENTS)),
@@ -162,7 +165,7 @@ pub fn ref_scenario(rng: &mut Rng) -> String {
     let n = 2 + rng.below(7);
     for i in 0..n {
         if i > 0 {
-            s.push_str(rng.pick_str(&[" ", " then ", ".\n\n", "\n\n", "\n\n> note @water{}\n\n", "\n\n= part\n\n", "\n\n>> [mode]: steps\n\n", "\n\n>> [mode]: components\n\n", "\n\n>> [define]: all\n\n", "\n"]));
+            s.push_str(rng.pick_str(&[" ", " then ", ".\n\n", "\n\n", "\n\n> note @water{}\n\n", "\n\n= part\n\n", "\n\n>> [mode]: steps\n\n", "\n\n>> [mode]: components\n\n", "\n\n>> [define]: all\n\n", "\n", "\n\n>> [mode]: components\n-Длятестапонадобятсяследующиепродукты: ", "\n\n>> [mode]: components\ncrème fraîche épaisse à 30 % ou crème double, bien froide: "]));
         }
         let marker = rng.pick_str(&["@", "@", "@", "#"]);
         s.push_str(marker);
